@@ -32,6 +32,9 @@ func (g *gen) leanType(n ast.Node, t types.Type) string {
 	if isErrorType(t) {
 		return "Go.Err"
 	}
+	if t == sigmaType {
+		return "σ"
+	}
 	switch u := t.(type) {
 	case *types.Pointer:
 		if _, ok := u.Elem().Underlying().(*types.Struct); ok {
@@ -69,6 +72,20 @@ func (g *gen) leanType(n ast.Node, t types.Type) string {
 			return "(List " + el + ")"
 		}
 		return "Go.Bytes"
+	case *types.Map:
+		return "(Go.Map " + g.leanType(n, u.Key()) + " " + g.leanType(n, u.Elem()) + ")"
+	case *types.Struct:
+		if u.NumFields() == 0 {
+			return "Unit"
+		}
+	case *types.TypeParam:
+		if sl, ok := u.Underlying().(*types.Interface); ok && sl.NumEmbeddeds() == 1 {
+			// a constraint such as ~[]E: the core type
+			if un, ok := sl.EmbeddedType(0).(*types.Union); ok && un.Len() == 1 {
+				return g.leanType(n, un.Term(0).Type())
+			}
+		}
+		return u.Obj().Name()
 	case *types.Signature:
 		var parts []string
 		for i := 0; i < u.Params().Len(); i++ {
@@ -87,6 +104,18 @@ func (g *gen) leanType(n ast.Node, t types.Type) string {
 	}
 	g.fail(n, "type %s", t)
 	return ""
+}
+
+// under: the underlying type; for a type parameter whose constraint has a single term (S ~[]E) the core type
+func under(t types.Type) types.Type {
+	if tp, ok := t.(*types.TypeParam); ok {
+		if in, ok := tp.Underlying().(*types.Interface); ok && in.NumEmbeddeds() == 1 {
+			if un, ok := in.EmbeddedType(0).(*types.Union); ok && un.Len() == 1 {
+				return un.Term(0).Type().Underlying()
+			}
+		}
+	}
+	return t.Underlying()
 }
 
 // zero value of a type, as Lean text
@@ -117,8 +146,17 @@ func (g *gen) zero(n ast.Node, t types.Type) string {
 		default:
 			return "(0 : " + g.leanType(n, t) + ")"
 		}
-	case *types.Slice:
+	case *types.Slice, *types.Map:
 		return "([] : " + g.leanType(n, t) + ")"
+	case *types.Struct:
+		if u.NumFields() == 0 {
+			return "()"
+		}
+	case *types.TypeParam:
+		if lt := g.leanType(n, t); lt != u.Obj().Name() {
+			return "([] : " + lt + ")"
+		}
+		return "(default : " + u.Obj().Name() + ")"
 	case *types.Array:
 		return fmt.Sprintf("(List.replicate %d %s)", u.Len(), g.zero(n, u.Elem()))
 	}
@@ -158,7 +196,7 @@ var leanKeywords = map[string]bool{"end": true, "from": true, "at": true, "open"
 	"true": true, "false": true, "Type": true, "Prop": true, "Sort": true, "using": true, "this": true, "s": false,
 	"deriving": true, "extends": true, "abbrev": true, "example": true, "macro": true, "syntax": true, "notation": true,
 	"infix": true, "import": true, "export": true, "private": true, "protected": true, "partial": true, "unsafe": true,
-	"mutual": true, "universe": true, "axiom": true, "opaque": true, "calc": true, "nomatch": true, "suffices": true,
+	"mutual": true, "exists": true, "forall": true, "universe": true, "axiom": true, "opaque": true, "calc": true, "nomatch": true, "suffices": true,
 	"obtain": true, "exact": true, "break": true, "continue": true, "try": true, "catch": true, "finally": true,
 	"unless": true, "throw": true, "len": true, "r": false}
 
@@ -310,7 +348,8 @@ func sharesMemory(t types.Type) bool {
 // libMutates: index of the argument a library routine writes through, or -1
 func libMutates(name string) int {
 	switch name {
-	case "binary.BigEndian.PutUint16", "binary.BigEndian.PutUint32", "binary.BigEndian.PutUint64", "binary.PutUvarint", "copy":
+	case "binary.BigEndian.PutUint16", "binary.BigEndian.PutUint32", "binary.BigEndian.PutUint64", "binary.PutUvarint", "copy",
+		"golang.org/x/exp/slices.SortFunc", "slices.SortFunc":
 		return 0
 	}
 	return -1
@@ -377,7 +416,7 @@ func (g *gen) analyseMutation() {
 				idx[v] = i
 			}
 			mark := func(v *types.Var) {
-				if i, ok := idx[v]; ok && !fi.mut[i] {
+				if i, ok := idx[v]; ok && !fi.mut[i] && !fi.consume[i] {
 					fi.mut[i] = true
 					changed = true
 				}
